@@ -137,6 +137,11 @@ class Evaluator:
             return Opq(t)
         if isinstance(e, ast.Tuple) or isinstance(e, ast.List):
             return tuple(self.ev(x, env, eff) for x in e.elts)
+        if isinstance(e, ast.Dict) and all(k is not None for k in e.keys):
+            ks = [self.ev(k, env, eff) for k in e.keys]
+            if all(is_concrete(k) for k in ks):
+                return dict(zip(ks, [self.ev(v, env, eff) for v in e.values]))
+            return Opq(u(e))
         if isinstance(e, ast.UnaryOp):
             v = self.ev(e.operand, env, eff)
             if isinstance(e.op, ast.Not):
@@ -277,6 +282,8 @@ class Evaluator:
         if isinstance(a, (int, float)) and isinstance(b, (int, float)):
             return _CMPF[o](a, b)
         if isinstance(a, str) and isinstance(b, str):
+            return _CMPF[o](a, b)
+        if o in ('==', '!=') and is_concrete(a) and is_concrete(b) and not is_sym_bool(a) and not is_sym_bool(b):
             return _CMPF[o](a, b)
         if isinstance(a, Term) or isinstance(b, Term):
             return ('free', '%r %s %r' % (a, o, b))
@@ -438,6 +445,18 @@ class Evaluator:
             env = dict(env)
             env[st.name] = Opq('<local %s>' % st.name)
             return [Path(env, conds, eff, None)]
+        if isinstance(st, ast.Delete):
+            env = dict(env)
+            for t in st.targets:
+                if isinstance(t, ast.Subscript) and isinstance(env.get(u(t.value)), tuple) and not is_sym_bool(env[u(t.value)]):
+                    idx = self.ev(t.slice, env, list(eff)) if not isinstance(t.slice, ast.Slice) else None
+                    if isinstance(idx, int) and not isinstance(idx, bool) and -len(env[u(t.value)]) <= idx < len(env[u(t.value)]):
+                        seq = list(env[u(t.value)])
+                        del seq[idx]
+                        env[u(t.value)] = tuple(seq)
+                        continue
+                raise AnalysisError('sympath: `%s` not modelled (line %d)' % (u(st), st.lineno))
+            return [Path(env, conds, eff, None)]
         if isinstance(st, ast.Return):
             eff = list(eff)
             v = self.ev(st.value, env, eff) if st.value is not None else None
@@ -543,7 +562,14 @@ class Evaluator:
                 for t in target.elts:
                     self.bind(t, Opq(u(t)), env)
         elif isinstance(target, ast.Subscript):
-            pass    # stores into containers are effects the checkers look at in the ast
+            # a store into a modelled dict rebinds a copy; other container stores are effects the checkers look at in the ast
+            t = u(target.value)
+            if isinstance(env.get(t), dict) and not isinstance(target.slice, ast.Slice):
+                k = self.ev(target.slice, env, [])
+                if is_concrete(k):
+                    d = dict(env[t])
+                    d[k] = v
+                    env[t] = d
         else:
             raise AnalysisError('sympath: assignment target %s not modelled' % type(target).__name__)
 
